@@ -56,6 +56,9 @@ def run_real(line):
     c = pc.Client(V1, client_id="cid", protocol=PROTO[proto], reconnect_on_failure=a.get("rof") == "1")
     name_locks(c)
     c.reconnect_delay_set(int(a.get("min", 1)), int(a.get("max", 120)))
+    pend = a.get("pend") == "1"
+    if pend:
+        c.publish("p/t", b"pending", 1)      # accepted without a connection: (re)transmitted at every accepted CONNACK
     idx = {"i": -1}            # index of the current script item
     sched = []                 # (due_ms, kind, payload) for the current socket
 
@@ -99,6 +102,10 @@ def run_real(line):
                 sched[-1] = (now + it[1], "data", wire.enc_connack(p, rc=0) + wire.enc_disconnect(rc=it[3]["s"]))
             elif it[3]["s"] is not None and p == 5:
                 sched.append((now + it[1] + it[2], "data", wire.enc_disconnect(rc=it[3]["s"])))
+            elif pend and it[2] == 0 and not any(it[3][k] for k in "fcdw"):
+                # "accepted, then lost at once", realised differently: the application has a QoS 1 message pending, and the write
+                # that retransmits it when the CONNACK is handled fails - the connection was accepted all the same
+                sched[-1] = (now + it[1], "dataerr", wire.enc_connack(p, rc=0))
             else:
                 sched.append((now + it[1] + it[2], "eof", None))
         elif it[0] == "down":
@@ -122,6 +129,8 @@ def run_real(line):
             if kind == "eof":
                 s.feed_eof()
             else:
+                if kind == "dataerr":
+                    s.outscript.append(("error",))
                 s.feed(payload)
             return True
         return False
@@ -200,8 +209,21 @@ class LFStream:
             mx = rng.choice([mn, mn * 2, mn * 4, mn * 5, 120])
             n = rng.randint(1, 8 if tier == "quick" else 14)
             items = []
+            # pend: the application has a QoS 1 message pending from the start (conversations without disconnect() calls only:
+            # what this variant adds is an accepted connection that is lost by a failing retransmission write)
+            pend = int(rng.random() < 0.3)
             for k in range(n):
                 r = rng.random()
+                if pend:
+                    if r < 0.3:
+                        items.append("refuse:-")
+                    elif r < 0.45:
+                        items.append(f"eof:{rng.choice([0, 1000, 2000])}:-")
+                    elif r < 0.55:
+                        items.append(f"nack:{rng.choice([2, 3, 4, 5] if proto != 5 else [128, 134, 135])}:{rng.choice([0, 1000])}:-")
+                    else:
+                        items.append(f"acc:{rng.choice([0, 1000, 2000])}:{rng.choice([0, 0, 0, 1000, 5000])}:-")
+                    continue
                 if r < 0.04:
                     items.append("predisc")
                 elif r < 0.3:
@@ -225,7 +247,7 @@ class LFStream:
                     items.append(f"acc:{rng.choice([0, 1000, 2000])}:{life}:{d}")
                 else:
                     items.append(f"down:{rng.choice([0, 1000])}")
-            case.append(f"lf proto={proto} min={mn} max={mx} rof={int(rng.random() < 0.85)} retry={int(rng.random() < 0.85)} script={','.join(items)}")
+            case.append(f"lf proto={proto} min={mn} max={mx} rof={1 if pend else int(rng.random() < 0.85)} retry={int(rng.random() < 0.85)} pend={pend} script={','.join(items)}")
         return case
 
     def real(self, case):
